@@ -46,7 +46,7 @@ type concCase struct {
 }
 
 var concKinds = []string{"canon-own", "canon-shared", "canon-alloc", "iter", "dawg-build", "dawg-lookup", "dawg-search", "observe",
-	"invariants", "codecs", "cliques-chan", "comb", "sortints", "random", "generators", "tsp", "colouring", "dawg-gob", "search-saveload", "views", "canon-big", "canon-big", "derive-edit", "compute-then-edit"}
+	"invariants", "codecs", "cliques-chan", "comb", "sortints", "random", "generators", "tsp", "colouring", "dawg-gob", "search-saveload", "views", "canon-big", "canon-big", "derive-edit", "compute-then-edit", "shared-arguments"}
 
 func genConcCase(t *rapid.T) concCase {
 	words := genWordSet(t, []byte{'a', 'b', 'c'}, 12, 4)
@@ -127,6 +127,13 @@ type concShared struct {
 	a, b   sortints.SortedInts
 	rack   []byte // an unsorted pattern / rack shared by all goroutines that build searchers from it
 }
+
+// sharedArgs are argument values that every goroutine hands to the library (which must treat them as read-only).
+var sharedArgs = struct {
+	empty []byte
+	nbr   []int
+	lists []sortints.SortedInts
+}{make([]byte, 0, 256), []int{0, 1, 2, 4}, []sortints.SortedInts{{1, 2}, {0}, {0}}}
 
 func orbitSets(ds disjoint.Set) string {
 	if ds == nil {
@@ -363,6 +370,28 @@ func runConcTask(sh *concShared, tk cTask) string {
 					fmt.Fprint(&sb, own.N(), own.M(), own.Degrees(), ";")
 				}
 			}
+		}
+	case "shared-arguments":
+		// every goroutine passes the SAME caller-owned slices (read-only for the library) to constructors and editing
+		// functions of its OWN graphs and then edits those graphs
+		args := sharedArgs
+		for r := 0; r < 3; r++ {
+			d := graph.NewDense(1, args.empty)
+			d.AddVertex(args.nbr[:1])
+			d.AddVertex(args.nbr[:2])
+			d.RemoveEdge(0, 1)
+			d0 := graph.NewDense(0, args.empty)
+			d0.AddVertex(nil)
+			d0.AddVertex(args.nbr[:1])
+			sp := graph.NewSparse(6, nil)
+			sp.AddVertex(args.nbr)
+			sp.AddVertex(args.nbr[:3])
+			sp.RemoveEdge(6, args.nbr[0])
+			sp.RemoveVertex(1)
+			sp2 := graph.NewSparse(3, args.lists)
+			sp2.AddEdge(0, 2)
+			sp2.RemoveVertex(0)
+			fmt.Fprint(&sb, d.M(), d.Degrees(), d0.M(), sp.M(), sp.Degrees(), sp2.M(), sp2.Degrees(), ";")
 		}
 	case "compute-then-edit":
 		// an own graph is handed to the library and edited as soon as the call returns: nothing the call started may
@@ -621,7 +650,7 @@ func checkConcCase(c concCase, rec *Rec) error {
 
 func init() {
 	s := RegisterRapid("C19_concurrent_workloads",
-		"rapid (run from the -race binary): a workload of 3..~25 tasks drawn from 23 kinds - all m shards of search.All(n<=6), CanonicalIsomorphFull on own graphs (incl. 24..44-vertex graphs with large cells) and on ONE shared read-only graph held as dense/sparse/three views, CanonicalIsomorphAllocated with own storage, eight itertools iterators, own dawg Builders, Lookup and Search (own searchers) on ONE shared Dawg (half of the time with 24 links at the root and at a second-level node), observers / clique / colouring / distance / block / counting / planarity / codec functions on the shared graph, AllMaximalCliques with own channels, comb and sortints functions on shared read-only slices, RandomGraph/RandomTree, the named generators, tsp.LIB to own buffers, GobEncode of the shared Dawg + GobDecode into an own one, an own pruned search that is saved and resumed, induced-subgraph and complement views created over the shared graphs, deep copies (Copy, InducedSubgraph on prefixes) derived from the shared graphs and then edited, own graphs edited immediately after each library call on them returns; half of the tasks are duplicated so that two goroutines run identical code on the shared values. Each task's result is computed alone (before the concurrent rounds, or - in half of the cases - after the first one, so that lazily filled caches are still cold when the goroutines start), and all tasks run on 2..16 goroutines behind a start barrier with GOMAXPROCS in {1,2,4,16}, 1..3 rounds. Violation: any race-detector report (GORACE=halt_on_error), any panic, any result that differs from the sequential one, or shards that no longer partition the classes. Schedules are sampled, not enumerated. Non-trivial: >= 2 tasks on >= 2 goroutines.",
+		"rapid (run from the -race binary): a workload of 3..~25 tasks drawn from 24 kinds - all m shards of search.All(n<=6), CanonicalIsomorphFull on own graphs (incl. 24..44-vertex graphs with large cells) and on ONE shared read-only graph held as dense/sparse/three views, CanonicalIsomorphAllocated with own storage, eight itertools iterators, own dawg Builders, Lookup and Search (own searchers) on ONE shared Dawg (half of the time with 24 links at the root and at a second-level node), observers / clique / colouring / distance / block / counting / planarity / codec functions on the shared graph, AllMaximalCliques with own channels, comb and sortints functions on shared read-only slices, RandomGraph/RandomTree, the named generators, tsp.LIB to own buffers, GobEncode of the shared Dawg + GobDecode into an own one, an own pruned search that is saved and resumed, induced-subgraph and complement views created over the shared graphs, deep copies (Copy, InducedSubgraph on prefixes) derived from the shared graphs and then edited, own graphs edited immediately after each library call on them returns, own graphs built and grown from argument slices that all goroutines share; half of the tasks are duplicated so that two goroutines run identical code on the shared values. Each task's result is computed alone (before the concurrent rounds, or - in half of the cases - after the first one, so that lazily filled caches are still cold when the goroutines start), and all tasks run on 2..16 goroutines behind a start barrier with GOMAXPROCS in {1,2,4,16}, 1..3 rounds. Violation: any race-detector report (GORACE=halt_on_error), any panic, any result that differs from the sequential one, or shards that no longer partition the classes. Schedules are sampled, not enumerated. Non-trivial: >= 2 tasks on >= 2 goroutines.",
 		Budget{Checks: 150, Shards: 3}, Budget{Checks: 1500, Shards: 16}, genConcCase, checkConcCase)
 	s.Race = true
 }
